@@ -185,6 +185,9 @@ class SqlParseLineageAnalyzer(LineageAnalyzer):
                             elif isinstance(t, IdentifierList):
                                 identifiers.extend(t.get_identifiers())
                             for i, identifier in enumerate(identifiers):
+                                if i >= len(insert_columns):
+                                    # more values than insert columns: no target column to link
+                                    break
                                 if isinstance(identifier, Identifier):
                                     src_col = Column(identifier.get_real_name())
                                     src_col.parent = direct_source
